@@ -58,6 +58,10 @@ package bech32
 //@ specfn hrpx(Bytes) Bytes
 //@ smt (assert (forall ((a (Array Int Int)) (o Int) (n Int)) (! (=> (>= n 0) (= (polyb (b.of a o n)) (polyfold a o n))) :pattern ((polyb (b.of a o n))))))
 
+//@ specfn zeros6() Bytes
+//@ smt @zeros6 (assert (and (= (b.len zeros6) 6) (= (b.at zeros6 0) 0) (= (b.at zeros6 1) 0) (= (b.at zeros6 2) 0) (= (b.at zeros6 3) 0) (= (b.at zeros6 4) 0) (= (b.at zeros6 5) 0)))
+//@ smt @zeros6 (assert (forall ((m (Array Int Int)) (o Int)) (! (=> (and (= (select m o) 0) (= (select m (+ o 1)) 0) (= (select m (+ o 2)) 0) (= (select m (+ o 3)) 0) (= (select m (+ o 4)) 0) (= (select m (+ o 5)) 0)) (= (b.of m o 6) zeros6)) :pattern ((b.of m o 6)))))
+
 //@ pred printable(s) := forall j in 0..len(s) :: 33 <= at(s, j) && at(s, j) <= 126
 //@ pred nolower(s) := forall j in 0..len(s) :: !(97 <= at(s, j) && at(s, j) <= 122)
 //@ pred noupper(s) := forall j in 0..len(s) :: !(65 <= at(s, j) && at(s, j) <= 90)
@@ -79,7 +83,9 @@ package bech32
 //@   loop 1 unroll
 //@   ensures#len len(ret) == 6                                                                        [C09 C14]
 //@   ensures#range forall j in 0..6 :: 0 <= ret[j] && ret[j] < 32                                     [C09 C14]
-//@   ensures#val forall j in 0..6 :: ret[j] == (xor32(polyb(cat(hrpx(hrp), old(bytes(data)), zeros(6))), 1) / pow2(5 * (5 - j))) % 32   [C09]
+//@   call polymod#1 requires bytes(arg0) == cat(hrpx(hrp), old(bytes(data)), zeros6())                    [C09]
+//@   ensures#mod mod == xor32(polyb(cat(hrpx(hrp), old(bytes(data)), zeros6())), 1)                         [C09]
+//@   ensures#val forall j in 0..6 :: ret[j] == (mod / pow2(5 * (5 - j))) % 32                              [C09]
 //@   fresh ret
 
 //@ func convertBits(data, frombits, tobits, pad) (ret, err)
